@@ -135,52 +135,5 @@ Theorem C04_SO3_SE3_action : forall (X : M33 R) (p : V3 R),
 Proof. intros; split; gen_ring. Qed.
 Print Assumptions C04_SO3_SE3_action.
 
-(* ---------------------------------------------------------------- unit dual quaternions *)
-Definition dq_real (a : V8 R) : V4 R := let '(a0,a1,a2,a3,_,_,_,_) := a in (a0,a1,a2,a3).
-Definition dq_dual (a : V8 R) : V4 R := let '(_,_,_,_,a4,a5,a6,a7) := a in (a4,a5,a6,a7).
-Definition dq_make (r d : V4 R) : V8 R := let '(a0,a1,a2,a3) := r in let '(a4,a5,a6,a7) := d in (a0,a1,a2,a3,a4,a5,a6,a7).
-(* the dual quaternion of the rigid motion (rotation quaternion r, translation t): r + eps (1/2) t r *)
-Definition udq_rt (r : V4 R) (t : V3 R) : V8 R := dq_make r (qmul Rops (vscale4 Rops (1/2) (qpure Rops t)) r).
-
-(* UnitDualQuaternion.SE3(): rotation from the real part, translation 2 * dual * conj(real) *)
-Theorem C04_UDQ_SE3 : forall (r : V4 R) (t : V3 R), qnormsq Rops r = 1 ->
-  tr_UDQ_SE3 Rops (udq_rt r t) = rt2tr3 Rops (q2r_ref Rops r) t.
-Proof.
-  intros r t H. unfold udq_rt, dq_make. gen_unfold. sqrt_one. tuple_eq ltac:(unit_eq).
-Qed.
-Print Assumptions C04_UDQ_SE3.
-
-(* UnitDualQuaternion * point is the rigid motion p -> R p + t (it returned R p before /repo commit 0a28e8d) *)
-Theorem C04_UDQ_action : forall (r : V4 R) (t p : V3 R), qnormsq Rops r = 1 ->
-  tr_UDQ_act Rops (udq_rt r t) p = vadd3 Rops (mv33 Rops (q2r_ref Rops r) p) t.
-Proof.
-  intros r t p H. unfold udq_rt, dq_make. gen_unfold. sqrt_one. tuple_eq ltac:(unit_eq).
-Qed.
-Print Assumptions C04_UDQ_action.
-
-(* product of unit dual quaternions = composition of the rigid motions: (r1,t1)(r2,t2) = (r1 r2, t1 + R1 t2) *)
-Theorem C04_UDQ_mul_hom : forall (r1 r2 : V4 R) (t1 t2 : V3 R), qnormsq Rops r1 = 1 -> qnormsq Rops r2 = 1 ->
-  tr_UDQ_mul Rops (udq_rt r1 t1) (udq_rt r2 t2) =
-  udq_rt (qmul Rops r1 r2) (vadd3 Rops t1 (mv33 Rops (q2r_ref Rops r1) t2)).
-Proof.
-  intros r1 r2 t1 t2 H1 H2. unfold udq_rt, dq_make. gen_unfold. sqrt_one. tuple_eq ltac:(unit_eq).
-Qed.
-Print Assumptions C04_UDQ_mul_hom.
-
-(* UnitDualQuaternion(SE3 T): on each of the six r2q paths the traced constructor is (real, 1/2 t real) with real = traced r2q of the rotation block *)
-Theorem C04_UDQ_of_SE3_structure : forall X : M44 R,
-  (tr_UDQ_vec_b0p Rops X = udq_rt (tr_r2q_b0p Rops (t2r3 X)) (transl3 X)) /\
-  (tr_UDQ_vec_b0m Rops X = udq_rt (tr_r2q_b0m Rops (t2r3 X)) (transl3 X)) /\
-  (tr_UDQ_vec_b1p Rops X = udq_rt (tr_r2q_b1p Rops (t2r3 X)) (transl3 X)) /\
-  (tr_UDQ_vec_b1m Rops X = udq_rt (tr_r2q_b1m Rops (t2r3 X)) (transl3 X)) /\
-  (tr_UDQ_vec_b2p Rops X = udq_rt (tr_r2q_b2p Rops (t2r3 X)) (transl3 X)) /\
-  (tr_UDQ_vec_b2m Rops X = udq_rt (tr_r2q_b2m Rops (t2r3 X)) (transl3 X)).
-Proof.
-  intros X. unfold udq_rt, dq_make.
-  repeat split; gen_unfold;
-  tuple_eq ltac:(repeat match goal with |- context [1 / sqrt ?x] => generalize (1 / sqrt x); intro end; field).
-Qed.
-Print Assumptions C04_UDQ_of_SE3_structure.
-
-Example C04_b_nonvacuous : SO2 (rot2_cs Rops (3/5) (4/5)) /\ SO3 (rotx_cs Rops (3/5) (4/5)) /\ qnormsq Rops (3/5, 0, 4/5, 0) = 1.
-Proof. split; [apply SO2_rot2; lra | split; [apply SO3_rotx; lra | autounfold with smlin; sm_simpl; lra]]. Qed.
+Example C04_b_nonvacuous : SO2 (rot2_cs Rops (3/5) (4/5)) /\ SO3 (rotx_cs Rops (3/5) (4/5)).
+Proof. split; [apply SO2_rot2; lra | apply SO3_rotx; lra]. Qed.
